@@ -28,7 +28,7 @@ EXHAUSTIVE = {"flag": True, "scope": "all shapes 0..3 x 0..3 for every directed 
 ANCHOR_FUNCS = ["table:Table.__init__", "table:Table.__rshift__", "table:Table.__lshift__", "table:Table.T", "table:Table.__getitem__", "table:Table.__iter__"]
 REQUIRED_STRATA = {"recompute": 200, "structural": 200, "steps": 2000}
 
-OPS = ["slice-write-reversed", "two-iterations-alive", "<<row-unsized", "<<row-onto-untyped-empty", "cells-with-shape-attribute", "rows-by-index-list", "rows-by-own-int-column", "mask-none-then-lshift", "select-accessor-before-stored", "row-write-own-column", "row-held-across-writes", "colselect-2d-then-write", "write-bad-column-position", "gather-big", "sort-repeated-labels", ">>own-column-then-write", "rowslice-2d", "<<table-zero-rows", "<<row-bytearray", ">>nothing", ">>vector", ">>vector-wrong", ">>list", ">>dict", ">>dict-wrong", ">>table", ">>table-wrong", "<<row", "<<row-short", "<<row-long", "<<table", "<<row-widen", ">>dict-own-column",
+OPS = [">>dict-ragged-onto-columnless", "rename-first-of-twins", "cell-by-name-first", "slice-write-reversed", "two-iterations-alive", "<<row-unsized", "<<row-onto-untyped-empty", "cells-with-shape-attribute", "rows-by-index-list", "rows-by-own-int-column", "mask-none-then-lshift", "select-accessor-before-stored", "row-write-own-column", "row-held-across-writes", "colselect-2d-then-write", "write-bad-column-position", "gather-big", "sort-repeated-labels", ">>own-column-then-write", "rowslice-2d", "<<table-zero-rows", "<<row-bytearray", ">>nothing", ">>vector", ">>vector-wrong", ">>list", ">>dict", ">>dict-wrong", ">>table", ">>table-wrong", "<<row", "<<row-short", "<<row-long", "<<table", "<<row-widen", ">>dict-own-column",
 	"rowslice", "rowmask", "T.T", "attr", "attr-wrong", "ragged-ctor", "attr-iterable", "setitem-table", "<<table-dupnames", ">>table-dupnames", "vector>>"]
 
 
@@ -450,6 +450,61 @@ def run_structural(chk, spec):
 			if M.snap_table(t) != before:
 				chk.fail("structural operations leave existing cells untouched (the result is a table of its own)", f"structural/{op}/operand-follows-result", f"{spec!r}: writing into the result changed the operand: {short(before, 160)} -> {short(M.snap_table(t), 160)}")
 				return
+	elif op == ">>dict-ragged-onto-columnless":
+		# a table without columns has nothing to measure new columns against: the new columns still have to agree with each other
+		base = Table({"k": [1, 2], "v": [3, 4]})
+		E = [lambda: Table(), lambda: Table({}), lambda: Table(()), lambda: base[:, 0:0], lambda: base.inner_join(Table({"k": [9], "z": [0]}), "k", "k")][spec["key"][0]]
+		e = call(E)
+		if not e.ok or not isinstance(e.value, Table) or len(e.value.cols()):
+			chk.skip("structural-columnless-unavailable")
+			return
+		lens = [(3, 1), (1, 3), (2, 0), (0, 2)][spec["key"][1]]
+		o = call(lambda: e.value >> {"a": list(range(lens[0])), "b": list(range(lens[1]))})
+		rejected(chk, spec, o, None, None, f"column-less table >> dict of columns of {lens} cells")
+		ok = call(lambda: e.value >> {"a": [1, 2, 3], "b": [4, 5, 6]})
+		if ok.ok and isinstance(ok.value, Table):
+			expect_cells(chk, spec, ok.value, [[1, 2, 3], [4, 5, 6]], ">> appends columns", "wrong-cells")
+	elif op == "rename-first-of-twins":
+		# two columns share a label (or labels that sanitise alike); the FIRST is renamed away: the survivor is addressed by that label like the column of a table built so
+		twins = [("a", "a"), ("Qty", "qty"), ("x y", "x_y"), ("a", "A")][spec["key"][0]]
+		how = spec["key"][1]
+		def build(first):
+			return Table([Vector([1, 2], name=first), Vector([5, 6], name="mid"), Vector([8, 9], name=twins[1])])
+		import warnings
+		with warnings.catch_warnings():
+			warnings.simplefilter("ignore")
+			live = build(twins[0])
+			if how == 1:
+				call(dir, live)
+			ren = call(live.rename_column, twins[0], "fresh")
+			if not ren.ok:
+				chk.skip("structural-rename-refused")
+				return
+			ref = build("fresh")
+			label = twins[1]
+			acc = [n for n in dir(ref) if n not in dir(Table(()))]
+			probes = {"t[i][label]": lambda x: x[1][label], "t[i, label]": lambda x: x[1, label], "t[label][i]": lambda x: x[label][1], "row-accessor": lambda x: getattr(x[1], acc[-1]), "table-accessor": lambda x: list(getattr(x, acc[-1])),
+				"cell-write": lambda x: (x.__setitem__((0, acc[-1]), 77), [list(col) for col in x.cols()])[1], "attr-write": lambda x: (setattr(x, acc[-1], [70, 71]), [list(col) for col in x.cols()])[1]}
+			for pname, f in probes.items():
+				a, b = call(f, live), call(f, ref)
+				if a.ok != b.ok or (a.ok and a.value != b.value):
+					chk.fail("rows, columns and cells addressed by name agree with a table built with these labels", f"structural/{op}/{pname}", f"{spec!r}: labels now {live.column_names()!r}: {pname} gives {short(a, 120)}; a table built with these labels gives {short(b, 120)}")
+					return
+	elif op == "cell-by-name-first":
+		# t[name, i] is the cell t[i, name] is: the i-th value of the column t[name]
+		labels = [["unit price", "n"], ["a", "A"], ["name", "sum"], ["max", "shape"], ["2x", "\u00e9"], ["plain", "Plain_"]][spec["key"][0]]
+		import warnings
+		with warnings.catch_warnings():
+			warnings.simplefilter("ignore")
+			tt = Table([Vector([10, 20], name=labels[0]), Vector([30, 40], name=labels[1])])
+			for j, lab in enumerate(labels):
+				for i in (0, 1, -1):
+					want = call(lambda: tt[lab][i])
+					for form, f in (("t[name, i]", lambda: tt[lab, i]), ("t[i, name]", lambda: tt[i, lab])):
+						got = call(f)
+						if want.ok and (not got.ok or got.value != want.value or type(got.value) is not type(want.value)):
+							chk.fail("the i-th row agrees with the i-th values of the columns", f"structural/{op}/{form.replace(' ', '')}", f"{spec!r}: {form} with name {lab!r}, i = {i}: {short(got, 100)}; t[name][i] is {want.value!r}")
+							return
 	elif op == "slice-write-reversed":
 		# a row slice whose bounds select nothing (reversed, or past the end): as for a list, writing nothing - or a scalar - into it is a no-op or an error, never a longer column
 		if c == 0:
@@ -815,6 +870,12 @@ def run(chk):
 					variants = [(j, f, 0) for j in range(max(c, 1)) for f in range(5)] if r and c else []
 				elif op == "write-bad-column-position":
 					variants = [(b, f, 0) for b in range(5) for f in range(4)] if r and c else []
+				elif op == ">>dict-ragged-onto-columnless":
+					variants = [(e_, l_, 0) for e_ in range(5) for l_ in range(4)] if (r, c) == (0, 0) else []
+				elif op == "rename-first-of-twins":
+					variants = [(tw, h, 0) for tw in range(4) for h in range(2)] if (r, c) == (2, 2) else []
+				elif op == "cell-by-name-first":
+					variants = [(l_, 0, 0) for l_ in range(6)] if (r, c) == (2, 2) else []
 				elif op == "slice-write-reversed":
 					variants = [(a, b, f) for (a, b) in ((3, 1), (2, 0), (-1, 1), (4, 2), (9, 12), (2, 2), (-1, -3)) for f in range(3)] if c else []
 				elif op == "two-iterations-alive":
